@@ -432,6 +432,68 @@ func dominatingConds(b *ssa.BasicBlock) []condEdge {
 			out = append(out, condEdge{cond: srcV, taken: ce.taken})
 		}
 	}
+	// `phi == nil` / `phi != nil` (typically an error merged from several steps, e.g. by an inlined helper): incoming
+	// values that contradict the known outcome are excluded; if one edge survives, its facts hold.
+	for i := 0; i < len(out) && i < 96; i++ {
+		ce := out[i]
+		if ce.subst != nil {
+			continue
+		}
+		cm, ok := asCmp(ce.cond, ce.taken)
+		if !ok || (cm.op != token.EQL && cm.op != token.NEQ) {
+			continue
+		}
+		var phi *ssa.Phi
+		if p, isP := cm.x.(*ssa.Phi); isP && isNilConst(cm.y) {
+			phi = p
+		} else if p, isP := cm.y.(*ssa.Phi); isP && isNilConst(cm.x) {
+			phi = p
+		}
+		if phi == nil {
+			continue
+		}
+		wantNil := cm.op == token.EQL
+		cnt := 0
+		var srcB *ssa.BasicBlock
+		var srcV ssa.Value
+		for j, e := range phi.Edges {
+			pred := phi.Block().Preds[j]
+			if isNilConst(e) {
+				if !wantNil {
+					continue
+				}
+			} else if wantNil {
+				// excluded when the value is known non-nil where the edge leaves its predecessor
+				known := false
+				for _, pc := range append(dominatingCondsRaw(pred), edgeCond(pred, phi.Block())...) {
+					if c2, ok2 := asCmp(pc.cond, pc.taken); ok2 && c2.op == token.NEQ && ((c2.x == e && isNilConst(c2.y)) || (c2.y == e && isNilConst(c2.x))) {
+						known = true
+					}
+				}
+				if _, isGlobalErr := e.(*ssa.UnOp); isGlobalErr && isErrorType(e.Type()) {
+					if u := e.(*ssa.UnOp); u.Op == token.MUL {
+						if _, isG := u.X.(*ssa.Global); isG {
+							known = true // sentinel error variables are non-nil
+						}
+					}
+				}
+				if known {
+					continue
+				}
+			}
+			cnt++
+			srcB, srcV = pred, e
+		}
+		if cnt != 1 {
+			continue
+		}
+		out = append(out, dominatingCondsRaw(srcB)...)
+		out = append(out, edgeCond(srcB, phi.Block())...)
+		if !isNilConst(srcV) {
+			// the surviving value itself is nil / non-nil
+			out = append(out, condEdge{cond: &ssa.BinOp{Op: token.NEQ, X: srcV, Y: ssa.NewConst(nil, srcV.Type())}, taken: !wantNil})
+		}
+	}
 	n := len(out)
 	for i := 0; i < n; i++ {
 		ce := out[i]
@@ -1561,4 +1623,45 @@ func (c *Ctx) proxyFuncs() []*ssa.Function {
 		out = append(out, f)
 	}
 	return out
+}
+
+// edgeCond: the branch condition under which control goes from block from to block to (if from ends in an If).
+func edgeCond(from, to *ssa.BasicBlock) []condEdge {
+	if len(from.Instrs) == 0 {
+		return nil
+	}
+	ifi, ok := from.Instrs[len(from.Instrs)-1].(*ssa.If)
+	if !ok || from.Succs[0] == from.Succs[1] {
+		return nil
+	}
+	if from.Succs[0] == to {
+		return []condEdge{{cond: ifi.Cond, taken: true, ifIn: ifi}}
+	}
+	if from.Succs[1] == to {
+		return []condEdge{{cond: ifi.Cond, taken: false, ifIn: ifi}}
+	}
+	return nil
+}
+
+// nonNilSource: a value merged with nil constants only (e.g. the result of an inlined helper that returns
+// `nil, err` on failure) is represented by its single non-nil source; other values are returned unchanged.
+func nonNilSource(v ssa.Value) ssa.Value {
+	phi, ok := v.(*ssa.Phi)
+	if !ok {
+		return v
+	}
+	var src ssa.Value
+	for _, e := range phiSources(phi) {
+		if isNilConst(e) {
+			continue
+		}
+		if src != nil && src != e {
+			return v
+		}
+		src = e
+	}
+	if src == nil {
+		return v
+	}
+	return src
 }
